@@ -615,7 +615,7 @@ def fixed_cases():
 
 def build_cases(ctx):
     rng = ctx.rng
-    n = 8 if ctx.tier == "quick" else 200
+    n = 8 if ctx.tier == "quick" else 150
     cases = fixed_cases()
     for kind in CELL_KINDS:
         for _ in range(n if kind != "triclinic" else 3 * n):
